@@ -52,7 +52,7 @@ def make_file(fmt, name, header_name=None, n=3, archive=False):
     sc = "noaa17" if fam == "klm" else "noaa14"
     lines = l1b.default_lines(fmt, n, start)
     hn = name.encode("ascii") if header_name is None else header_name
-    return l1b.build_file(fmt, sc, start, lines, name=hn, archive=False)
+    return l1b.build_file(fmt, sc, start, lines, name=hn, archive=archive)
 
 
 def select(filename, fileobj=None):
@@ -127,7 +127,7 @@ def run(res, tier, seed):
                 data = make_file(fmt, nm, header_name=b"\x00" * 42)
                 fname = nm
             else:
-                data = make_file(fmt, nm)
+                data = make_file(fmt, nm, archive=rng.random() < 0.5)     # with / without the ARS / TBM archive header
                 fname = rng.choice(["somefile", nm, "/data/" + nm + ".gz"])
             exp = expected_class(nm)
             if exp is not None and exp != {"gac_klm": "GACKLMReader", "lac_klm": "LACKLMReader", "gac_pod": "GACPODReader", "lac_pod": "LACPODReader"}[fmt]:
